@@ -55,7 +55,8 @@ def opsNewton (op : String) (ins outs : List String) : Option String :=
       pure "FAIL known-zero-in-the-unicity-box-outside-the-existence-box" else
     if zs.any (fun p => zs.any fun q => Verdict.refutedTwo eqs e vars p q) then
       pure "FAIL two-known-zeros-in-one-existence-box" else
-    if Verdict.noZero eqs 3 e then pure "FAIL existence-box-without-any-zero" else
+    if (paramSamples e vars).any (fun w => Verdict.refutedSlice eqs e vars w 3) then
+      pure "FAIL no-zero-in-the-existence-box-for-a-parameter-value" else
     let square := vars.length == e.length
     let kind := if square then "square" else "with-parameters"
     match Verdict.findCert eqs e u vars 5 with
